@@ -18,7 +18,8 @@ EXPLANATION = (
     ' Fourth round: in the probability domain the keep-test is strict; leaf items come from one site; the search expands every accepted entry (R16.4).'
     ' Fifth round: every in-process call of depccg._parsing.run passes the one option dictionary.'
     ' Sixth and seventh round: the fill loop takes every tag, the score buffers are contiguous, chunking / gather, each search option declared on one level of the command line.'
-    ' Eighth round: an option dictionary built by name ({k: v for k, v in vars(args).items() if k in signature(run).parameters}) passes exactly the like-named options.')
+    ' Eighth round: an option dictionary built by name ({k: v for k, v in vars(args).items() if k in signature(run).parameters}) passes exactly the like-named options.'
+    ' Eleventh round: R16.5 -- retrieve_tree rebuilds a terminal only for an item without children, so the supertag shown for a word is the one the search used.')
 TRUSTED = ['clang-14 front end', 'CPython ast', 'sa/pyx.py normaliser', 'rule table DESIGN.md C16']
 
 
